@@ -101,8 +101,9 @@ def close(a, b, rtol=1e-12, atol=0.0):
     with np.errstate(invalid="ignore"):
         both_nan = np.isnan(a) & np.isnan(b)
         same_inf = np.isinf(a) & np.isinf(b) & (np.sign(a) == np.sign(b))
-        ok = np.abs(a - b) <= atol + rtol * np.maximum(np.abs(a), np.abs(b))
-    return both_nan | same_inf | (ok & ~np.isnan(a) & ~np.isnan(b))
+        fin = np.isfinite(a) & np.isfinite(b)
+        ok = fin & (np.abs(np.where(fin, a - b, 0.0)) <= atol + rtol * np.where(fin, np.maximum(np.abs(a), np.abs(b)), 0.0))
+    return both_nan | same_inf | ok
 
 
 def angle_diff(a, b, period=360.0):
